@@ -13,12 +13,14 @@ T_TxF == IsEvent("txf") /\ UNCHANGED avars /\ cClosing' = (cClosing \/ (Rec[l].e
 T_Drop == IsEvent("endpoint_datagram_dropped") /\ (IF Rec[l].ep = "s" THEN Unroutable(Rec[l].len, FALSE) ELSE UNCHANGED avars) /\ UNCHANGED cClosing
 T_EpSent == IsEvent("endpoint_packet_sent") /\ (IF Rec[l].ep = "s" THEN Announce(Rec[l].kind) ELSE UNCHANGED avars) /\ UNCHANGED cClosing
 T_Dg == IsEvent("dg") /\ LET r == Rec[l] IN
-          (IF r.dir = "s2c" THEN ServerDatagram(r.len)
+          (IF r.dir = "s2c" THEN ServerDatagram(r.len, r.dst)
            ELSE ClientDatagram(r.len, cClosing, IF r.act \in {"dup", "replay_late", "corrupt_copy"} THEN 2
                                                 ELSE IF r.act \in {"pass", "hold", "corrupt"} THEN 1 ELSE 0)) /\ UNCHANGED cClosing
 \* a forged datagram the attacker sends to the server is as good a reason for a Retry as a genuine one
 T_Inject == IsEvent("inject") /\ eligible' = (IF Rec[l].to_server THEN eligible + 1 ELSE eligible)
-            /\ UNCHANGED <<rcvd, sentB, valid, triggers, pendingKind, clientInitial, answered, retries, cClosing>>
-TNext == T_Inject \/ T_Reset \/ T_DgRecv \/ T_DgSent \/ T_RxP \/ T_TxP \/ T_TxF \/ T_Drop \/ T_EpSent \/ T_Dg
+            /\ UNCHANGED <<rcvd, sentB, valid, triggers, pendingKind, clientInitial, answered, retries, cClosing, pvars>>
+T_Rxd == IsEvent("rxd") /\ (IF Rec[l].ep = "s" THEN ServerSaw(Rec[l].raddr) ELSE UNCHANGED avars) /\ UNCHANGED cClosing
+T_RxF == IsEvent("rxf") /\ (IF Rec[l].ep = "s" /\ Rec[l].conn = 0 /\ Rec[l].ty = "path_response" THEN PathValidated ELSE UNCHANGED avars) /\ UNCHANGED cClosing
+TNext == T_Rxd \/ T_RxF \/ T_Inject \/ T_Reset \/ T_DgRecv \/ T_DgSent \/ T_RxP \/ T_TxP \/ T_TxF \/ T_Drop \/ T_EpSent \/ T_Dg
 TSpec == TInit /\ [][TNext]_<<avars, l, cClosing>>
 =============================================================================
